@@ -206,7 +206,7 @@ Fixpoint find_req_task (f : N) (l : list task) : option task :=
    section; the first caller leads and its task is spawned and polled once *)
 Definition known_caller (s : fstate) (c : N) : bool := existsb (fun p => N.eqb c (fst p)) (callers s).
 
-Definition call (bug_close : bool) (s : fstate) (c k : N) (has_opt has_req : bool) : fstate :=
+Definition call (bug_close : bool) (s : fstate) (c k : N) (has_opt has_req pollnow : bool) : fstate :=
   if known_caller s c then s else     (* caller names are fresh; a reused name is ignored *)
   match mlookup k (mem s) with
   | Some v => mkF (mem s) (infls s) (tasks s) (cells s) (callers s ++ [(c, REntry v)]) (started s) (finished s) (next_id s)
@@ -227,12 +227,31 @@ Definition call (bug_close : bool) (s : fstate) (c k : N) (has_opt has_req : boo
           let t := mkTask k id c tcell' (TInit has_opt (if has_req then Some c else None)) in
           let s := mkF (mem s) (infls s ++ [mkInfl k id ecell [c] None]) (tasks s ++ [t]) cells'
                        (callers s ++ [(c, RPending)]) (started s) (finished s) (id + 1) in
-          poll_init s t
+          if pollnow then poll_init s t else s
       end
   end.
 
+(* the fetch task is dropped (its runtime shuts down, or its future panics): RawFetch's PinnedDrop
+   takes its own in-flight entry by id and answers the waiters with a cancellation error *)
+Fixpoint find_task (t : N) (l : list task) : option task :=
+  match l with [] => None | x :: l' => if N.eqb t (tid x) then Some x else find_task t l' end.
+
+Definition kill_task (s : fstate) (t : task) : fstate :=
+  match tst t with
+  | TDone => s
+  | _ =>
+      let '(s1, ws) := take s (tkey t) (Some (tid t)) in
+      let s2 := match ws with Some ws => answer s1 ws (RErr 1) | None => s1 end in
+      with_tasks s2 (set_task (tid t) TDone (tasks s2))
+  end.
+
+Definition kill_all (s : fstate) : fstate :=
+  fold_left (fun s t => match find_task (tid t) (tasks s) with Some x => kill_task s x | None => s end) (tasks s) s.
+
 Inductive act :=
 | ACall (c k : N) (has_opt has_req : bool)
+| ACallNoPoll (c k : N) (has_opt has_req : bool)   (* spawned, not yet polled *)
+| AKillAll                                          (* the runtime is dropped: every task is dropped *)
 | AOpt (c : N) (o : ores)        (* the optional stage created for leader c resolves; its task is polled *)
 | AReq (f : N) (r : rres)        (* origin fetch f resolves; the task running it is polled *)
 | AInsert (k v : N)
@@ -240,7 +259,9 @@ Inductive act :=
 
 Definition fstep (bug_close : bool) (s : fstate) (a : act) : fstate :=
   match a with
-  | ACall c k ho hr => call bug_close s c k ho hr
+  | ACall c k ho hr => call bug_close s c k ho hr true
+  | ACallNoPoll c k ho hr => call bug_close s c k ho hr false
+  | AKillAll => kill_all s
   | AOpt c o => match find_opt_task c (tasks s) with Some x => poll_opt s x o | None => s end
   | AReq f r => match find_req_task f (tasks s) with Some x => poll_req s x r | None => s end
   | AInsert k v => do_insert s k v
